@@ -597,6 +597,8 @@ func parentMain(prop, tier string) int {
 				fmt.Printf("KNOWN-FINDING: property=%s %s\n", v.Prop, kf)
 				reportedKnown[v.Prop+"|"+v.Key] = true
 			}
+			// the evidence shows that the listed finding was observed again
+			agg.Obs["known_finding_observed."+v.Key]++
 			continue
 		}
 		nviol++
